@@ -14,7 +14,7 @@ What happens on every run
                    the whole sandbox outside O/G is identical before and after; a run with a source
                    directory inside O raises before the first mutating attempt.
   faults     : the n-th mutating attempt raises OSError, for sampled (quick) / all (thorough) n;
-               oracle (b) again, and the attempts made are a sub-multiset of the model's fault-free run
+               oracle (b) again, and the attempts made are among those of the model's fault-free run
                (no handler does file-system work of its own).
 """
 from __future__ import annotations
@@ -205,7 +205,7 @@ OUT_PLACEMENTS = {
 }
 REFUSING = {"eq_src", "above_src", "above_all", "eq_src_symlink", "above_src2", "eq_src_dotdot", "above_src_symlink"}
 G_PLACEMENTS = {"none": None, "plain": "./graphs", "missing": "gr/a/b", "sibling": "../gout", "absolute": "{W}/elsewhere/g",
-                "symlink": "../lnk/g", "inside": "{O}/graphs", "dotdot": "src/../g2", "exists": "./gexist"}
+                "symlink": "../lnk/g", "inside": "{O}/graphs", "dotdot": "src/../g2", "exists": "./gexist", "shared_media": "./media"}
 
 
 def build_sandbox(sb: Path, scn: dict) -> dict:
@@ -222,6 +222,9 @@ def build_sandbox(sb: Path, scn: dict) -> dict:
     (proj / "gexist" / "old.svg").write_text("<svg/>")
     (proj / "images" / "pic.png").write_text("pic")
     (proj / "media" / "m.txt").write_text("m")
+    (proj / "media" / "logo.svg").write_text("<svg>logo</svg>")
+    (proj / "media" / "arch.gv").write_text("digraph{a->b}")
+    (proj / "gexist" / "notes.gv").write_text("digraph{}")
     (proj / "media" / "m2" / "n.txt").write_text("n")
     (proj / "my.css").write_text("body{}")
     (proj / "mj.js").write_text("//mj")
@@ -490,9 +493,6 @@ def oracle(scn, lay, rec: Recorder, before: dict, after: dict, res: dict) -> lis
     fails = []
     refuse = any(under(str(s), O) for s in lay["srcs"])
 
-    def allowed_path(p):
-        return under(p, O) or (G is not None and under(p, G))
-
     if refuse:
         muts = [e for e in rec.events if e["kind"] != "spawn"]
         if muts or rec.outside:
@@ -510,7 +510,14 @@ def oracle(scn, lay, rec: Recorder, before: dict, after: dict, res: dict) -> lis
         k, p = e["kind"], e["path"]
         if k == "spawn":
             continue
-        if allowed_path(p):
+        if under(p, O):
+            continue
+        if G is not None and under(p, G):
+            # the graph directory is only ever added to: nothing that existed there may be removed or renamed
+            # away, and only files FORD names itself (`<kind>~~<name>~~<Graph>`) may be rewritten
+            if p in before and (k in ("rm", "rmdir", "rmtree") or
+                                (k in ("wr", "mvfrom", "mvto", "truncate") and "~~" not in os.path.basename(p))):
+                fails.append({"why": f"pre-existing entry of graph_dir removed/overwritten: {k} {p}", "event": e})
             continue
         if k == "mk" and (under(O, p) or (G is not None and under(G, p))):
             continue  # creating a missing ancestor of O / G
@@ -520,6 +527,13 @@ def oracle(scn, lay, rec: Recorder, before: dict, after: dict, res: dict) -> lis
     changed = diff_snap(before, after, O, G)
     if changed:
         fails.append({"why": "file system outside output_dir/graph_dir differs after the run", "changed": changed[:8]})
+    if G is not None and not under(G, O):
+        lost = [{"path": p, "before": v, "after": after.get(p)} for p, v in sorted(before.items())
+                if under(p, G) and not under(p, O) and p != G and "~~" not in os.path.basename(p)
+                and (p not in after or (v[0] == "f" and after[p] != v))]
+        if lost:
+            fails.append({"why": "pre-existing content of graph_dir (which may coincide with an input directory) was "
+                                 "deleted or modified", "changed": lost[:8]})
     return fails
 
 
@@ -897,7 +911,8 @@ def run(tier: str, seed: int, replay: str | None = None) -> int:
                 # attempts under a fault are among those of the fault-free model run (as a set: pathlib's
                 # touch() falls back to open(O_CREAT) when utime fails, repeating an earlier `wr`)
                 pool = set(m_asis[4:])
-                extra = [p for p in real if p not in pool]
+                # pathlib's Path.touch() is `utime`, falling back to open(O_CREAT|O_WRONLY) on the same path
+                extra = [p for p in real if p not in pool and not (p.startswith("wr ") and "utime " + p[3:] in pool)]
                 if extra:
                     n_corr_bad += 1
                     rep.tie_broken(f"fault run (n={r['fault_at']}) of scenario {scn['id']} performed attempts that the fault-free "
